@@ -45,34 +45,89 @@ _FLT_RE = re.compile(rb"[ \t\n\v\f\r]*([+-]?(?:[0-9]+\.?[0-9]*(?:[eE][+-]?[0-9]+
 _SIMPLE_ESC = {ord("n"): 10, ord("r"): 13, ord("t"): 9}
 
 
-def f32_bits(text):
-    """Correctly rounded (nearest, ties to even) binary32 image of a decimal literal, computed exactly."""
-    t = text.strip().lower()
-    if t.lstrip("+-") == "inf":
-        return 0xFF800000 if t.startswith("-") else 0x7F800000
-    d = Decimal(t)
-    sign = 0x80000000 if d.is_signed() else 0
-    a = abs(Fraction(d))
-    if a == 0:
-        return sign
+_DEC_LIT = re.compile(r"([+-]?)(?:([0-9]+)\.?([0-9]*)|\.([0-9]+))(?:[eE]([+-]?[0-9]+))?\Z")
+_HEX_LIT = re.compile(r"([+-]?)0[xX](?:([0-9a-fA-F]+)\.?([0-9a-fA-F]*)|\.([0-9a-fA-F]+))(?:[pP]([+-]?[0-9]+))?\Z")
+_INF, _ZERO = "inf", "zero"
+
+
+def literal_value(text):
+    """(negative, magnitude) of a decimal or C99 hexadecimal floating literal, computed exactly. The magnitude is a
+    Fraction, or _INF for 'inf' and for magnitudes above 10^400 (beyond every binary64), or _ZERO for magnitudes
+    below 10^-400 (below half the smallest binary64 subnormal) - so that absurd exponents never build huge integers."""
+    t = text.strip()
+    low = t.lower()
+    if low.lstrip("+-") in ("inf", "infinity"):
+        return low.startswith("-"), _INF
+    m = _DEC_LIT.match(t)
+    base = 10
+    if not m:
+        m = _HEX_LIT.match(t)
+        base = 16
+        if not m:
+            raise OracleError("not a floating literal: %r" % text)
+    neg = m.group(1) == "-"
+    ip, fp = (m.group(2), m.group(3)) if m.group(2) is not None else ("", m.group(4))
+    ex = int(m.group(5) or "0")
+    digits = (ip + fp).lstrip("0")
+    if not digits:
+        return neg, Fraction(0)
+    # order: exponent (in digits of the base) of the leading non-zero digit
+    order = len(ip) - (len(ip + fp) - len(digits)) - 1
+    scale = 1 if base == 10 else 4
+    approx10 = (order * scale + ex) * (1.0 if base == 10 else 0.30103)
+    if approx10 > 400:
+        return neg, _INF
+    if approx10 < -400:
+        return neg, _ZERO
+    mant = int(digits, base)
+    drop = len(fp)
+    if base == 10:
+        e10 = ex - drop
+        a = Fraction(mant * 10 ** e10) if e10 >= 0 else Fraction(mant, 10 ** -e10)
+    else:
+        e2 = ex - 4 * drop
+        a = Fraction(mant * 2 ** e2) if e2 >= 0 else Fraction(mant, 2 ** -e2)
+    return neg, a
+
+
+def round_binary(a, p, emin):
+    """Bits (without sign) of the IEEE-754 binary format with p significand bits (hidden one included) and minimum
+    normal exponent emin nearest to the positive Fraction a, ties to even; overflow gives the infinity pattern."""
+    bias = 1 - emin
+    inf = (2 * bias + 1) << (p - 1)
+    if a is _INF:
+        return inf
+    if a is _ZERO or a == 0:
+        return 0
     e = a.numerator.bit_length() - a.denominator.bit_length()
     if Fraction(2) ** e > a:
         e -= 1
     elif Fraction(2) ** (e + 1) <= a:
         e += 1
-    qexp = max(e, -126) - 23
+    qexp = max(e, emin) - (p - 1)
     m = round(a / Fraction(2) ** qexp)  # Python rounds Fractions half-to-even
-    if m == 1 << 24:
+    if m == 1 << p:
         m >>= 1
         qexp += 1
     if m == 0:
-        return sign
-    if m >= 1 << 23:
-        ef = qexp + 23 + 127
-        if ef >= 255:
-            return sign | 0x7F800000
-        return sign | (ef << 23) | (m - (1 << 23))
-    return sign | m  # subnormal
+        return 0
+    if m >= 1 << (p - 1):
+        ef = qexp + (p - 1) + bias
+        if ef >= 2 * bias + 1:
+            return inf
+        return (ef << (p - 1)) | (m - (1 << (p - 1)))
+    return m  # subnormal
+
+
+def f32_bits(text):
+    """Correctly rounded (nearest, ties to even) binary32 image of a literal, computed exactly."""
+    neg, a = literal_value(text)
+    return (0x80000000 if neg else 0) | round_binary(a, 24, -126)
+
+
+def f64_bits(text):
+    neg, a = literal_value(text)
+    return ((1 << 63) if neg else 0) | round_binary(a, 53, -1022)
 
 
 # libc's own strtof/strtod (no phosg involved) as a self-check of the exact arithmetic above: a disagreement makes the
@@ -89,6 +144,12 @@ except Exception:  # pragma: no cover
 
 
 def libc_selfcheck(lit, dbl):
+    """Two more opinions on the exact arithmetic above: CPython's correctly rounded float() for binary64 decimal
+    literals and libc's strtof/strtod called directly (no phosg involved). A disagreement is an oracle error."""
+    if dbl and not re.match(r"[+-]?0[xX]", lit.strip()):
+        py = struct.pack("<d", float(lit))
+        if py != f64_bytes(lit, False):
+            raise OracleError("reference rounding of %r (double) is %s but CPython float() gives %s" % (lit, f64_bytes(lit, False).hex(), py.hex()))
     if _libc is None:
         return
     if dbl:
@@ -153,10 +214,263 @@ def midpoint_literal(r, dbl):
     return lit, kind
 
 
+# ---- numeric-literal spellings -------------------------------------------------------------------
+# Families of *decimal* floating literals whose value an independent reading of "a float literal" fixes (judged), see
+# notes/c09.md "Round 5" for the reasoning per family. The result of each is the correctly rounded value; two families
+# are judged weakly because no document says what an unrepresentable magnitude becomes:
+#   overflow  (|x| rounds beyond the largest finite value): the infinity or the largest finite value, correct sign
+#   underflow (|x| rounds to zero): a zero of either sign
+SPELLING_FAMILIES = ("plus-sign", "leading-zeros", "dot-edge", "exp-marker", "long-digits", "denormal", "underflow",
+                     "overflow", "overflow-edge", "mixed-spelling")
+_FMT = {False: (24, -126, 4), True: (53, -1022, 8)}  # dbl -> significand bits, min normal exponent, bytes
+
+
+def _digits(r, n, first_nonzero=True):
+    s = "".join(r.choice("0123456789") for _ in range(n))
+    if first_nonzero and s and s[0] == "0":
+        s = r.choice("123456789") + s[1:]
+    return s
+
+
+def _plain_pos(r, dbl):
+    """An ordinary positive literal well inside the range (digits first, no sign)."""
+    x = r.random()
+    if x < 0.30:
+        return "%d.%0*d" % (r.randrange(0, 3000), r.randrange(1, 5), r.randrange(0, 1000))
+    if x < 0.45:
+        return str(r.randrange(0, 100000))
+    if x < 0.80:
+        return "%d.%de%s%d" % (r.randrange(1, 10), r.randrange(0, 100000), r.choice(("", "-", "+")), r.randrange(0, 290 if dbl else 30))
+    if dbl:
+        v = struct.unpack("<d", struct.pack("<Q", r.getrandbits(63)))[0]
+        return "%.17g" % v if math.isfinite(v) else "2.5"
+    v = struct.unpack("<f", struct.pack("<I", r.getrandbits(31)))[0]
+    return "%.9g" % v if math.isfinite(v) else "2.5"
+
+
+def _shape(d, r, digits=None):
+    """Render a positive Decimal in plain or exponent notation, optionally rounded to `digits` significant digits."""
+    if digits is not None:
+        d = decimal.Context(prec=digits, rounding=r.choice((decimal.ROUND_HALF_EVEN, decimal.ROUND_UP, decimal.ROUND_DOWN)),
+                            Emax=decimal.MAX_EMAX, Emin=decimal.MIN_EMIN).plus(d)
+    x = r.random()
+    if x < 0.45:
+        return format(d, "e" if r.random() < 0.7 else "E").replace("E+", r.choice(("E+", "E"))).replace("e+", r.choice(("e+", "e")))
+    return format(d, "f")
+
+
+def _eps(r, up):
+    k = r.randrange(12, 40)
+    e = Decimal(1).scaleb(-k)
+    return (1 + e) if up else (1 - e)
+
+
+def spelling_literal(r, dbl, family):
+    """One literal of the family; returns (literal, family actually produced) - a member of "denormal" that rounds to
+    zero is reported as "underflow"."""
+    p, emin, _ = _FMT[dbl]
+    min_sub = Fraction(1, 2 ** (p - 1 - emin))  # 2^-149 / 2^-1074
+    max_fin = Fraction(2 ** p - 1) * Fraction(2) ** (1 - emin - (p - 1))  # (2^p - 1) * 2^(emax - p + 1), emax = 1 - emin... see below
+    # emax = -emin + 1 (127 / 1023); largest finite = (2^p - 1) * 2^(emax - (p - 1))
+    half_ulp = Fraction(2) ** (1 - emin - (p - 1)) / 2
+    threshold = max_fin + half_ulp  # the tie between the largest finite value and 2^(emax+1): rounds (to even) out of range
+    rng10 = 290 if dbl else 30
+    sign = r.choice(("", "", "-"))
+    if family == "plus-sign":
+        return "+" + (_plain_pos(r, dbl) if r.random() < 0.93 else "inf"), family
+    if family == "leading-zeros":
+        k = r.choice((1, 1, 2, 3, 6, 30))
+        x = r.random()
+        if x < 0.45:
+            return sign + "0" * k + _plain_pos(r, dbl), family
+        if x < 0.70:
+            return "%s%d.%de%s%s%d" % (sign, r.randrange(1, 10), r.randrange(0, 1000), r.choice(("", "-", "+")), "0" * k, r.randrange(0, rng10)), family
+        if x < 0.90:
+            return "%s%s.%s%s" % (sign, "0" * k, "0" * r.randrange(0, 12), _digits(r, r.randrange(1, 9))), family
+        return sign + "0" * (k + 1), family
+    if family == "dot-edge":
+        d = _digits(r, r.randrange(1, 8), first_nonzero=False)
+        ex = r.choice(("", "", "e%d" % r.randrange(0, rng10), "e-%d" % r.randrange(0, rng10), "E+%d" % r.randrange(0, rng10)))
+        return sign + r.choice(("." + d, d + ".", "0." + d, d + ".0", "0.", ".0")) + ex, family
+    if family == "exp-marker":
+        mant = r.choice((_digits(r, r.randrange(1, 6)), "%d.%s" % (r.randrange(0, 100), _digits(r, r.randrange(1, 7), False)),
+                         "." + _digits(r, r.randrange(1, 6), False), _digits(r, r.randrange(1, 4)) + "."))
+        return "%s%s%s%s%d" % (sign, mant, r.choice("eE"), r.choice(("", "+", "-")), r.choice((0, 1, r.randrange(0, rng10)))), family
+    if family == "long-digits":
+        n = r.choice((40, 60, 100, 200, 400, 800)) + r.randrange(0, 20)
+        k = r.randrange(-rng10, rng10)  # decimal order of the value
+        x = r.random()
+        if x < 0.25:  # n significant digits, exponent brings the value into the range
+            ds = _digits(r, n)
+            cut = r.randrange(0, n + 1)
+            lit = (ds[:cut] or "0") + "." + ds[cut:] + "e%d" % (k - cut + 1)
+        elif x < 0.45:  # 0.000...0ddd e+Z
+            z = n
+            lit = "0." + "0" * z + _digits(r, r.randrange(1, 20)) + ("e%s%d" % (r.choice(("", "+")), z + k) if z + k >= 0 else "e%d" % (z + k))
+        elif x < 0.65:  # d000...0 e-Z
+            z = n
+            lit = _digits(r, r.randrange(1, 20)) + "0" * z + r.choice(("", ".", ".000")) + "e%d" % (k - z)
+        elif x < 0.80:  # short value, long tail of zeros
+            lit = _plain_pos(r, dbl).split("e")[0]
+            lit = (lit if "." in lit else lit + ".") + "0" * n
+        else:  # the complete decimal expansion of a random finite value of the type (and of its neighbourhood)
+            if dbl:
+                v = struct.unpack("<d", struct.pack("<Q", (r.randrange(1, 2046) << 52) | r.getrandbits(52)))[0]
+            else:
+                v = struct.unpack("<f", struct.pack("<I", (r.randrange(1, 254) << 23) | r.getrandbits(23)))[0]
+            lit = _shape(exact_decimal(Fraction(v)), r)
+        return sign + lit, family
+    if family in ("denormal", "underflow"):
+        if family == "underflow" and r.random() < 0.6:
+            x = r.random()
+            if x < 0.3:
+                lit = "%d.%se-%d" % (r.randrange(1, 10), _digits(r, r.randrange(0, 6), False), r.randrange(330 if dbl else 47, 420))
+            elif x < 0.5:
+                lit = "%de-%d" % (r.randrange(1, 1000), r.choice((999, 4951, 99999, 2 ** 31, 2 ** 32 + 5, 2 ** 63, 2 ** 64 + 1, 10 ** 25)))
+            elif x < 0.75:
+                lit = "0." + "0" * r.randrange(330 if dbl else 50, 700) + _digits(r, r.randrange(1, 10))
+            else:
+                lit = _shape(_BIGCTX.multiply(exact_decimal(min_sub / 2), _eps(r, False)), r, r.randrange(17, 40))
+        else:
+            m = r.choice((0, 0, 1, 1, 2, 3, r.randrange(2 ** (p - 1)), r.randrange(2 ** (p - 1)), 2 ** (p - 1) - 1, 2 ** (p - 1), 2 ** (p - 1) + 1))
+            if family == "underflow":
+                m = 0
+            x = r.random()
+            if m and x < 0.4:  # the subnormal itself (or the smallest normals), complete or shortened
+                lit = _shape(exact_decimal(m * min_sub), r, r.choice((None, 9 if not dbl else 17, r.randrange(17, 40))))
+            elif x < 0.6:  # exact tie between m and m+1 units
+                lit = _shape(exact_decimal((2 * m + 1) * min_sub / 2), r)
+            else:
+                up = r.random() < 0.5 if family == "denormal" else False
+                lit = _shape(_BIGCTX.multiply(exact_decimal((2 * m + 1) * min_sub / 2), _eps(r, up)), r, r.randrange(17, 40))
+        lit = sign + lit
+        zero = (f64_bits(lit) << 1) & ((1 << 64) - 1) == 0 if dbl else (f32_bits(lit) << 1) & 0xFFFFFFFF == 0
+        return lit, ("underflow" if zero else "denormal")
+    if family == "overflow":
+        x = r.random()
+        if x < 0.25:
+            lit = "%d.%se%s%d" % (r.randrange(1, 10), _digits(r, r.randrange(0, 6), False), r.choice(("", "+")),
+                                  r.choice((309, 310, 400, 999)) if dbl else r.choice((39, 40, 45, 100, 300, 308, 309, 999)))
+        elif x < 0.40:
+            lit = "%de%s%d" % (r.randrange(1, 1000), r.choice(("", "+")), r.choice((4951, 99999, 2 ** 31, 2 ** 32 + 5, 2 ** 63, 2 ** 64 + 1, 10 ** 25)))
+        elif x < 0.60:
+            lit = _digits(r, r.randrange(310 if dbl else 40, 420)) + r.choice(("", ".", ".0", ".5"))
+        elif x < 0.75:
+            lit = _shape(exact_decimal(threshold), r)
+        else:
+            lit = _shape(_BIGCTX.multiply(exact_decimal(threshold), _eps(r, True)), r, r.randrange(17, 40))
+            if literal_value(lit)[1] < threshold:  # shortened below the tie
+                lit = _shape(exact_decimal(threshold), r)
+        return sign + lit, family
+    if family == "overflow-edge":
+        x = r.random()
+        if x < 0.3:
+            lit = _shape(exact_decimal(max_fin), r, r.choice((None, None, 17 if dbl else 9)))
+        else:
+            lit = _shape(_BIGCTX.multiply(exact_decimal(threshold), _eps(r, False)), r, r.randrange(20, 60))
+        if literal_value(lit)[1] >= threshold:  # rounding of the literal carried it onto the tie
+            lit = _shape(exact_decimal(max_fin), r)
+        return sign + lit, family
+    if family == "mixed-spelling":
+        sg = r.choice(("", "-", "+", "+"))
+        z = "0" * r.choice((0, 0, 1, 3))
+        ip = _digits(r, r.choice((0, 1, 1, 2, 5, 25)))
+        fp = _digits(r, r.choice((0, 1, 3, 8, 30)), False)
+        if not ip and not fp:
+            ip = "7"
+        mant = z + ip + ("." if (fp or r.random() < 0.5 or not (z + ip)) else "") + fp
+        if mant == ".":
+            mant = "0."
+        order = len(ip)
+        lo, hi = -rng10 - order, rng10 - order
+        e = r.randrange(lo, hi)
+        ex = "" if r.random() < 0.3 else "%s%s%s%d" % (r.choice("eE"), "-" if e < 0 else r.choice(("", "+")), "0" * r.choice((0, 0, 2)), abs(e))
+        return sg + mant + ex, family
+    raise OracleError("unknown family " + family)
+
+
+# Families that are *executed and counted, never judged*: no document fixes their meaning (see notes). For each the
+# reading of the C library conversions (strtof/strtod/strtoull base 0) is computed here exactly, only to classify
+# what was observed as "c-reading" or "other-reading".
+OBSERVE_FAMILIES = ("hexfloat", "nan", "infinity-word", "inf-case", "space-before-float", "int-leading-zero", "int-0X",
+                    "int-neg-hex", "int-out-of-width", "int-over-2^64", "int-space-before")
+
+
+def observe_case(r):
+    """Returns (text, family, predicate(data bytes) -> bool for the C-library reading)."""
+    fam = r.choice(OBSERVE_FAMILIES)
+    big = r.random() < 0.4
+    pre = b"$" if big else b""
+    tail = r.choice((b" A5", b"\nA5", b" ", b"", b" \"z\""))
+    tail_bytes = {b" A5": b"\xa5", b"\nA5": b"\xa5", b" ": b"", b"": b"", b" \"z\"": b"z"}[tail]
+    order = "big" if big else "little"
+    if fam.startswith("int-"):
+        w = r.choice((1, 2, 3, 4))
+        size = 1 << (w - 1)
+        bits = 8 * size
+        if fam == "int-leading-zero":
+            lit = r.choice(("0", "00", "000")) + r.choice(("7", "17", "8", "9", "19", "777", "010", str(r.randrange(0, 1 << min(bits, 30)))))
+            mo = re.match(r"0[0-7]*", lit)
+            v = int(mo.group(0), 8)
+            # C base-0: what follows the octal prefix is read on as hex nybbles by the data-string syntax
+            rest = lit[len(mo.group(0)):]
+            if rest:
+                return pre + b"#" * w + lit.encode() + tail, fam, None
+        elif fam == "int-0X":
+            v = r.randrange(1 << bits)
+            lit = "0X%X" % v
+        elif fam == "int-neg-hex":
+            v = -r.randrange(0, (1 << (bits - 1)) + 1)
+            lit = "-0x%x" % -v
+        elif fam == "int-out-of-width":
+            v = r.choice(((1 << bits), (1 << bits) + r.randrange(1 << bits), -(1 << (bits - 1)) - 1 - r.randrange(1 << (bits - 1)),
+                          -(1 << bits) - r.randrange(256))) if bits < 64 else -(1 << 63) - 1 - r.randrange(1 << 62)
+            lit = str(v)
+        elif fam == "int-over-2^64":
+            v = r.choice((TWO64, TWO64 + r.randrange(1 << 64), 10 ** r.randrange(20, 60) + r.randrange(10 ** 9), -TWO64 - r.randrange(10 ** 9)))
+            lit = str(v)
+        else:
+            v = r.randrange(1 << bits)
+            lit = r.choice((" ", "  ", "\t")) + str(v)
+        if abs(v) >= TWO64:
+            v = TWO64 - 1  # strtoull saturates (also for the negated form)
+        want = pre.replace(b"$", b"") + (v % (1 << bits)).to_bytes(size, order) + tail_bytes
+        return pre + b"#" * w + lit.encode() + tail, fam, (lambda d, want=want: d == want)
+    dbl = r.random() < 0.5
+    p, emin, nbytes = _FMT[dbl]
+    sg = r.choice(("", "", "-", "+"))
+    if fam == "hexfloat":
+        x = r.random()
+        mant = r.choice(("1", "1.8", "1.%x" % r.getrandbits(40), ".8", "%x" % r.getrandbits(30), "f.ffffffffffffffffff", "0.0000000001", "1."))
+        ex = r.choice((0, 1, -1, 10, -10, -149, -1074, 127, 128, 1023, 1024, -1100, r.randrange(-1100, 1100)))
+        lit = sg + r.choice(("0x", "0X")) + mant + ("" if x < 0.15 else "%s%s%d" % (r.choice("pP"), "-" if ex < 0 else r.choice(("", "+")), abs(ex)))
+        bits = f64_bits(lit) if dbl else f32_bits(lit)
+        want = bits.to_bytes(nbytes, order) + tail_bytes
+        pred = lambda d, want=want: d == want
+    elif fam == "nan":
+        lit = sg + r.choice(("nan", "NaN", "NAN", "nan()", "nan(0x7ff)", "nan(abc_1)", "NAN(1)"))
+        expmask = ((0x7FF << 52), (1 << 52) - 1) if dbl else ((0xFF << 23), (1 << 23) - 1)
+
+        def pred(d, nbytes=nbytes, order=order, expmask=expmask, tail_bytes=tail_bytes):
+            if len(d) != nbytes + len(tail_bytes) or d[nbytes:] != tail_bytes:
+                return False
+            b = int.from_bytes(d[:nbytes], order)
+            return b & expmask[0] == expmask[0] and b & expmask[1] != 0
+    else:
+        if fam == "infinity-word":
+            lit = sg + r.choice(("infinity", "Infinity", "INFINITY"))
+        elif fam == "inf-case":
+            lit = sg + r.choice(("INF", "Inf", "iNf"))
+        else:
+            lit = r.choice((" ", "  ", "\t", "\n")) + sg + _plain_pos(r, dbl)
+        bits = f64_bits(lit) if dbl else f32_bits(lit)
+        want = bits.to_bytes(nbytes, order) + tail_bytes
+        pred = lambda d, want=want: d == want
+    return pre + (b"%%" if dbl else b"%") + lit.encode() + tail, fam, pred
+
+
 def f64_bytes(text, big):
-    t = text.strip().lower()
-    v = float(t)  # CPython's float() is correctly rounded; overflow gives inf like strtod
-    return struct.pack(">d" if big else "<d", v)
+    return f64_bits(text).to_bytes(8, "big" if big else "little")
 
 
 def ref_parse(t):
@@ -277,12 +591,16 @@ class TextBuilder:
         self.data = bytearray()
         self.mask = bytearray()
         self.spans = []  # (start, end, item name)
+        self.alts = []  # (start, end, [other byte strings the statement also allows there])
+        self.no_final_ws = False
         self.big = False
         self.enabled = True
         self.items = set()
 
-    def emit(self, b, name):
+    def emit(self, b, name, alts=None):
         self.spans.append((len(self.data), len(self.data) + len(b), name))
+        if alts:
+            self.alts.append((len(self.data), len(self.data) + len(b), alts))
         self.data.extend(b)
         self.mask.extend((b"\xff" if self.enabled else b"\x00") * len(b))
         self.items.add("%s:%s:%s" % (name, "be" if self.big else "le", "on" if self.enabled else "off"))
@@ -354,13 +672,16 @@ class TextBuilder:
         self.big = not self.big
         self.items.add("endian-toggle")
 
-    def integer(self):
+    def integer(self, last=False):
         r = self.r
         w = r.choice((1, 2, 3, 4))
         size = 1 << (w - 1)
         bits = 8 * size
-        form = r.choice(("dec", "dec", "neg", "hex", "edge"))
-        if form == "neg":
+        form = r.choice(("dec", "dec", "neg", "hex", "edge", "plus"))
+        if form == "plus":  # an explicit plus sign on a decimal or 0x literal
+            v = r.choice((0, 1, (1 << bits) - 1, r.randrange(1 << bits), r.randrange(1 << r.randrange(1, bits + 1))))
+            lit = "+" + (str(v) if r.random() < 0.7 else "0x%X" % v)
+        elif form == "neg":
             v = -r.choice((1, 1 << (bits - 1), r.randrange(1, (1 << (bits - 1)) + 1)))
             lit = str(v)
         elif form == "hex":
@@ -369,13 +690,13 @@ class TextBuilder:
         elif form == "edge":
             v = r.choice((0, 1, (1 << bits) - 1, (1 << (bits - 1)), (1 << (bits - 1)) - 1, 10, 255, 256))
             v %= 1 << bits
-            lit = str(v)
+            lit = str(v) if v or r.random() < 0.7 else "-0"
         else:
             v = r.randrange(1 << r.randrange(1, bits + 1))
             lit = str(v)
         self.text.extend(b"#" * w + lit.encode())
-        self.emit((v % (1 << bits)).to_bytes(size, "big" if self.big else "little"), "int%d-%s" % (bits, "neg" if v < 0 else "hex" if form == "hex" else "dec"))
-        self.ws(True)
+        self.emit((v % (1 << bits)).to_bytes(size, "big" if self.big else "little"), "int%d-%s" % (bits, "plus" if form == "plus" else "neg" if v < 0 else "hex" if form == "hex" else "dec"))
+        self._after_number(last)
 
     def _float_literal(self, dbl):
         r = self.r
@@ -401,22 +722,47 @@ class TextBuilder:
             v = 1.5
         return "%.9g" % v
 
-    def floating(self):
-        dbl = self.r.random() < 0.5
+    def _after_number(self, last):
+        # a number is ended by white space or, when it is the last item, possibly by the end of the text
+        if last and self.r.random() < 0.5:
+            self.no_final_ws = True
+            self.items.add("number-at-end-of-text")
+        else:
+            self.ws(True)
+
+    def floating(self, last=False):
+        r = self.r
+        dbl = r.random() < 0.5
         suffix = ""
-        if self.r.random() < 0.3:
-            lit, kind = midpoint_literal(self.r, dbl)
+        x = r.random()
+        if x < 0.3:
+            lit, kind = midpoint_literal(r, dbl)
             suffix = "-midpoint"
             self.items.add("midpoint:%s:%s" % ("double" if dbl else "float", kind))
+        elif x < 0.65:
+            lit, fam = spelling_literal(r, dbl, r.choice(SPELLING_FAMILIES))
+            suffix = "-" + fam
         else:
             lit = self._float_literal(dbl)
+        p, emin, nbytes = _FMT[dbl]
+        neg, a = literal_value(lit)
+        mag = round_binary(a, p, emin)
+        inf = (2 * (1 - emin) + 1) << (p - 1)
+        sbit = (1 << (8 * nbytes - 1)) if neg else 0
+        order = "big" if self.big else "little"
+        alts = None
+        if mag == inf and "inf" not in lit.lower():
+            # magnitude beyond the largest finite value: no document says what it becomes -> infinity or largest finite
+            suffix = "-overflow"
+            alts = [(sbit | (inf - 1)).to_bytes(nbytes, order)]
+        elif mag == 0 and (a is _ZERO or a != 0):
+            # non-zero magnitude that rounds to zero: the sign of the zero is not demanded
+            suffix = "-underflow"
+            alts = [(sbit ^ (1 << (8 * nbytes - 1))).to_bytes(nbytes, order)]
         libc_selfcheck(lit, dbl)
         self.text.extend((b"%%" if dbl else b"%") + lit.encode())
-        if dbl:
-            self.emit(f64_bytes(lit, self.big), "double" + suffix)
-        else:
-            self.emit(f32_bits(lit).to_bytes(4, "big" if self.big else "little"), "float" + suffix)
-        self.ws(True)
+        self.emit((sbit | mag).to_bytes(nbytes, order), ("double" if dbl else "float") + suffix, alts)
+        self._after_number(last)
 
     def line_comment(self, last):
         r = self.r
@@ -454,14 +800,15 @@ def gen_text(rng):
         elif it == "endian":
             b.toggle_endian()
         elif it == "int":
-            b.integer()
+            b.integer(k == nitems - 1)
         elif it == "float":
-            b.floating()
+            b.floating(k == nitems - 1)
         elif it == "lc":
             b.line_comment(k == nitems - 1)
         else:
             b.block_comment()
-    b.ws()
+    if not b.no_final_ws:
+        b.ws()
     return b
 
 
@@ -473,13 +820,26 @@ FIXED_TEXTS = [
     # just above the midpoint of 1 and 1+2^-23: a text->double->float conversion rounds it down to 1.0
     b"%1.00000005960464478 $ %1.00000005960464478 ", b"%-1.0000001788139343262 %1.0000001788139343261 ",
     b"%%1.00000000000000011102230246251565404236316680908203126 %%1.00000000000000011102230246251565404236316680908203124 ", b"? 00 ? 00", b"// only a comment", b"/* only a comment */",
+    # spellings of ordinary decimal literals: explicit plus sign, leading zeros, leading/trailing point, E/e with signed exponents,
+    # a number ended by the end of the text
+    b"%+1.5 $ %+1.5 %%+2.5 $ 01 %+1.5 02", b"%007.50 %%-000.25 %1E+2 %1e-02 %%1.E+002 %.5 %5. %-.5e1 %+5.e-1",
+    b"#+5 ##+0x1F ###+0 ####+18446744073709551615 #-0 ", b"$ %%+1e+300", b"%+inf %%+inf %-inf",
+    b"%1.40129846432481707092372958328991613128026194187651577175706828388979108268586060148663818836212158203125e-45",
+    b"%%4.9406564584124654e-324 %%2.2250738585072011e-308 %3.4028234663852886e38 %%1.7976931348623157e308 %340282356779733661637539395458142568447.9",
 ]
 
 
-def judge_grammar_case(text, exp_data, exp_mask, spans, status, got_data, got_mask):
+def judge_grammar_case(text, exp_data, exp_mask, spans, status, got_data, got_mask, alts=()):
     """Returns None or (key, what)."""
     if status != 0:
         return ("parse:grammar:throws", "parse_data_string threw on a well-formed text: %r" % got_data[:200])
+    if alts and got_data != exp_data and len(got_data) == len(exp_data):
+        # spans where the statement allows more than one byte string (overflowing / underflowing float literals)
+        g = bytearray(got_data)
+        for s, e, others in alts:
+            if bytes(g[s:e]) in others:
+                g[s:e] = exp_data[s:e]
+        got_data = bytes(g)
     if got_data != exp_data:
         k = 0
         lim = min(len(got_data), len(exp_data))
@@ -800,8 +1160,10 @@ def _io_task(a):
         for _ in range(ntexts):
             b = gen_text(rng)
             texts.append((bytes(b.text), b))
-        for t, b in texts:
-            f.write(struct.pack("<I", len(t)) + t)
+        for _ in range(ntexts // 12 + 1):
+            texts.append(observe_case(rng))  # (text, family, predicate): executed and counted, never judged
+        for case in texts:
+            f.write(struct.pack("<I", len(case[0])) + case[0])
         builders = texts
     r = driver.run_shard(exe, tier, seed, shard, nshards, workdir, tag,
                          args=["only=io", "cases=" + cases_path, "res=" + res_path, "log=" + log_path, "round=%d" % rnd],
@@ -834,13 +1196,23 @@ def _io_task(a):
         buf = b""
     p = 0
     judged = 0
-    for text, b in builders:
+    for case in builders:
+        text, b = case[0], case[1]
         if p >= len(buf):
             break
         status = buf[p]
         p += 1
         got_data, p = _rdstr(buf, p)
         got_mask, p = _rdstr(buf, p)
+        if len(case) == 3:
+            # a spelling whose meaning no document fixes: only "did not throw" is demanded; what came out is counted
+            judged += 1
+            if status != 0:
+                violation("parse:grammar:throws", "parse_data_string threw: %r" % got_data[:200], "parse_data_string(%r)" % text)
+                continue
+            k = "observe:%s:%s" % (b, "unclassified" if case[2] is None else "c-library-reading" if case[2](got_data) else "other-reading")
+            classes[k] = classes.get(k, 0) + 1
+            continue
         exp_data, exp_mask = ref_parse(text)
         spans = []
         if b is not None:
@@ -853,7 +1225,7 @@ def _io_task(a):
         else:
             classes["grammar:fixed-text"] = classes.get("grammar:fixed-text", 0) + 1
         judged += 1
-        v = judge_grammar_case(text, exp_data, exp_mask, spans, status, got_data, got_mask)
+        v = judge_grammar_case(text, exp_data, exp_mask, spans, status, got_data, got_mask, b.alts if b is not None else ())
         if v:
             violation(v[0], v[1], "parse_data_string(%r) = data %s mask %s; syntax defines data %s mask %s" % (
                 text, got_data.hex(), got_mask.hex(), exp_data.hex(), exp_mask.hex()))
@@ -943,7 +1315,11 @@ def stage_io(ctx, st):
 # -------------------------------------------------------------------------------------------------
 
 _FUZZ_DICT = ['"\\""', '"\'"', '"\\\\"', '"?"', '"$"', '"#"', '"##"', '"###"', '"####"', '"%"', '"%%"', '"//"', '"/*"', '"*/"',
-              '"\\x0a"', '"0x"', '"-"', '"inf"', '"nan"', '"1e"', '"\\\\n"', '"\\\\\\""', '"<"', '">"']
+              '"\\x0a"', '"0x"', '"-"', '"inf"', '"nan"', '"1e"', '"\\\\n"', '"\\\\\\""', '"<"', '">"',
+              # numeric-literal spellings
+              '"+"', '"%+"', '"%%-"', '"#+"', '"e+"', '"E-"', '"p-"', '"P+"', '"0X"', '"%0x1.8p1"', '"%%0x1p-1074"', '"."', '".5"', '"5."',
+              '"infinity"', '"INF"', '"NaN"', '"nan("', '")"', '"1e999"', '"1e-999"', '"1e39"', '"%1e+39 "', '"000"', '"%+1.5 "',
+              '"99999999999999999999"', '"18446744073709551616"', '"3.4028235677973366e38"', '"4.9e-324"', '"1e-46"']
 
 
 def _fuzz_task(a):
@@ -953,7 +1329,12 @@ def _fuzz_task(a):
     art = os.path.join(workdir, "fuzz-art-%d-" % k)
     os.makedirs(corpus, exist_ok=True)
     rng = random.Random("c09-fuzz-%d-%d" % (seed, k))
-    for i, t in enumerate(FIXED_TEXTS[:1] + [bytes(gen_text(rng).text) for _ in range(12)]):
+    spell = [observe_case(rng)[0] for _ in range(8)]
+    for fam in SPELLING_FAMILIES:
+        lit = spelling_literal(rng, rng.random() < 0.5, fam)[0]
+        if len(lit) < 120:
+            spell.append(b"%" + lit.encode() + b" 00 %%" + lit.encode())
+    for i, t in enumerate(FIXED_TEXTS[:1] + FIXED_TEXTS[-7:] + spell + [bytes(gen_text(rng).text) for _ in range(12)]):
         with open(os.path.join(corpus, "seed%d" % i), "wb") as f:
             f.write(t)
     dict_path = os.path.join(workdir, "fuzz-%d.dict" % k)
